@@ -20,11 +20,15 @@ package engine
 // (ensurePersist); before that there is nothing to save and Save would
 // dereference a nil state (C08).
 //@ func (*DefaultEngine).Finish
-//@   serves C08
+//@   serves C08, C07, C12
 //@   requires en != nil && en.rs != nil
 // interface assumption established by ensurePersist (assumed contract, cbor outside reach)
-//@   premise en.initd && en.pe != nil ==> en.pe.State != nil && en.pe.Memory != nil
-//@   modifies everything
+//@   premise en.initd && en.pe != nil ==> en.pe.State != nil && en.pe.Memory != nil && en.pe.db != nil
+//@   modifies everything, count(dbputs), count(stfault)
+// the session is written once, under this engine's session id, and a failed save is reported (C07, C12)
+//@   callsite (*persist.Persister).Save assert[C07,C12] @session arg1 == en.cfg.SessionId
+//@   ensures[C12] @reports count(stfault) > old(count(stfault)) ==> result != nil
+//@   ensures[C07,C12] @once count(dbputs) <= old(count(dbputs)) + 1
 
 //@ func (*DefaultEngine).setCode
 //@   serves C20
